@@ -31,11 +31,15 @@ CHECKS = {
     "C03": dict(
         level="translation_validation", design="5/C03", engine="pysym (Python AST -> z3) + E2/E1",
         technique="symbolic execution of the rule/folding source (AST -> z3 bit-vectors), one SMT query per path against "
-                  "the EVM operator semantics; SMT equivalence of rules-on specifications vs the block",
+                  "the EVM operator semantics; symbolic execution of the context rules from symbolic instruction-list pre-states; "
+                  "SMT equivalence of rules-on specifications vs the block",
         text="The source of evaluate_expression, evaluate_expression_ter and apply_transform is re-read on every run and "
              "executed symbolically from its AST with operands, constants and variable values symbolic over all of "
              "[0,2^256); each path's result is compared by z3 with the EVM operator (and must not raise or build "
-             "unbounded integers). At block level the specification produced with rules on is decided against the block "
+             "unbounded integers). apply_cond_transformation (the context rules) is executed symbolically on instruction "
+             "lists outer(inner(..), other) / outer(inner, inner') with an optional further reader, symbolic constants and "
+             "operand values, assuming no local rule fires: every fired rule must keep the value of each target-stack "
+             "position and surviving variable. At block level the specification produced with rules on is decided against the block "
              "for the rule families, and in size mode a sound lower bound of the rules-on code size is compared with the "
              "original.",
         note="Trusted: vlib.pysym's model of Python integers (520-bit signed bit-vectors with explicit no-overflow "
@@ -142,7 +146,7 @@ CHECKS = {
     "C12": dict(
         level="model_checking", design="5/C12", engine="CrossHair havoc of module globals + native histories in fresh processes",
         technique="CrossHair symbolic execution (z3) of the real front-end from an arbitrary symbolic pre-state of its scalar "
-                  "module globals (one inductive step instead of histories)",
+                  "and string-list module globals (one inductive step instead of histories); counterexamples replayed natively",
         text="Every module-level name assigned inside a function of the specification generator is found by an AST walk of "
              "the current source; all scalar ones (28 on this tree) are set to unconstrained symbolic values at once and the "
              "real evm2rbr_compiler/get_sfs_dict runs on 8 concrete blocks under 3 (quick) / 4 (thorough) option sets: CrossHair "
